@@ -135,7 +135,7 @@ theorem usesMap_insert (ns : Namespace) (x : Bytes) :
 theorem dropLast_append_getLast? (l : List Bytes) (a : Bytes) (h : l.getLast? = some a) : l = l.dropLast ++ [a] := by
   have hne : l ≠ [] := by intro e; subst e; simp at h
   have := List.dropLast_concat_getLast hne
-  rw [List.getLast?_eq_getLast hne] at h
+  rw [List.getLast?_eq_some_getLast hne] at h
   simp only [Option.some.injEq] at h
   rw [h] at this
   exact this.symm
